@@ -33,6 +33,9 @@ Definition empty_coll : coll := mkColl [] [] false 1000 0 [].
 
 Definition with_docs (c : coll) (d : list (value * value)) : coll :=
   mkColl d (idx c) (forced c) (next_oid c) (now c) (odocs c).
+(* CollectionStore.__setitem__: the write also marks the collection as existing *)
+Definition with_docs_w (c : coll) (d : list (value * value)) : coll :=
+  mkColl d (idx c) true (next_oid c) (now c) (odocs c).
 Definition with_idx (c : coll) (i : list index) : coll :=
   mkColl (docs c) i (forced c) (next_oid c) (now c) (odocs c).
 
@@ -225,7 +228,7 @@ Definition insert_doc (c : coll) (d : value) : coll * res value :=
           | Some _ => (c1, Err EDup)
           | None =>
               let data := patch (VDoc fs1) in
-              let c2 := with_docs c1 (docs c1 ++ [(id, data)]) in
+              let c2 := with_docs_w c1 (docs c1 ++ [(id, data)]) in
               match ensure_uniques c2 data with
               | Ok touched =>
                   (* the unique checks may have expired documents on the way *)
@@ -386,7 +389,7 @@ Fixpoint update_loop (c : coll) (spec update : value) (multi : bool) (todo : lis
                 match id_of d with
                 | None => (c, Err EKey)
                 | Some _ =>
-                    let c1 := with_docs c (store_set k d' (docs c)) in
+                    let c1 := with_docs_w c (store_set k d' (docs c)) in
                     match ensure_uniques c1 d' with
                     | Err EUnmodelled => (c1, Err EUnmodelled)
                     | Err e =>
